@@ -39,8 +39,9 @@ def run(chk):
     missing = [t for t in THEOREMS if t not in names]
     theorems = [t for t in names]
     proof_ok = c10mod.proof_stage(chk, theorems, ["FlacUpdIo.IoFault", "FlacUpdIo.IoFault_proofs", "FlacUpdIo.Props_C13"], composed=True,
-                                  composed_theorems=["C13_real_codec_update_file", "C13_real_codec_inplace", "C13_real_codec_rebuilt", "C13_real_codec_example"],
-                                  composed_requires=["FlacE2EUpd.Props_FaultsE2E"])
+                                  composed_theorems=["C13_real_codec_update_file", "C13_real_codec_inplace", "C13_real_codec_rebuilt", "C13_real_codec_example",
+                                                    "C13_written_edited_then_faulty_update"],
+                                  composed_requires=["FlacE2EUpd.Props_FaultsE2E", "FlacE2EUpd.Props_WrittenFaults"])
     if missing:
         proof_ok = False
         chk.broken_tie("theorems-missing", "Props_C13.v no longer states: " + ", ".join(missing))
